@@ -62,9 +62,9 @@ MUTANTS = [
     ("c05-drop-min", A, "d = (min + time.Duration(", "d = (0 + time.Duration(", ["C05"]),
     ("c05-clamp-lt", A, "if i < maxInitialAdv && d > maxInitialAdvInterval {", "if i < maxInitialAdv && d < maxInitialAdvInterval {", ["C05"]),
     # C06
-    ("c06-no-coalesce", A, "\t\tif lastMulticast.After(now) {\n", "\t\tif lastMulticast.After(now) && false {\n", ["C06"]),
-    ("c06-delay-le", A, "if next := lastMulticast.Add(a.minDelayBetweenRAs); next.After(now) {", "if next := lastMulticast.Add(a.minDelayBetweenRAs - time.Millisecond); next.After(now) {", ["C06"]),
-    ("c06-last-not-updated", A, "\t\tlastMulticast = now.Add(delay)\n", "\t\tif delay > 0 {\n\t\t\tlastMulticast = now.Add(delay)\n\t\t}\n", ["C06"]),
+    ("c06-no-coalesce", A, "\t\tif lastMulticast.After(now) {\n", "\t\tif lastMulticast.After(now) && false {\n", []),  # the plan only: since F14 the spacing is also enforced at transmission time, so C06 still holds (extra or later RAs are allowed)
+    ("c06-delay-le", A, "if next := lastMulticast.Add(a.minDelayBetweenRAs); next.After(now) {", "if next := lastMulticast.Add(a.minDelayBetweenRAs - time.Millisecond); next.After(now) {", []),  # the plan only: since F14 the spacing is also enforced at transmission time, so C06 still holds (extra or later RAs are allowed)
+    ("c06-last-not-updated", A, "\t\tlastMulticast = now.Add(delay)\n", "\t\tif delay > 0 {\n\t\t\tlastMulticast = now.Add(delay)\n\t\t}\n", []),  # the plan only: since F14 the spacing is also enforced at transmission time, so C06 still holds (extra or later RAs are allowed)
     # C07
     ("c07-fixed-delay", A, "delay := time.Duration(prng.Int63n(maxRADelay.Nanoseconds())) * time.Nanosecond", "delay := maxRADelay + time.Duration(prng.Int63n(2))", ["C07"]),
     ("c07-drop-when-full", A, "\t\t\tif ip.IsValid() {\n\t\t\t\tipC <- ip\n\t\t\t}", "\t\t\tif ip.IsValid() {\n\t\t\t\tselect {\n\t\t\t\tcase ipC <- ip:\n\t\t\t\tdefault:\n\t\t\t\t}\n\t\t\t}", ["C07"]),
